@@ -78,6 +78,16 @@ def r04a(ctx, repo):
                 starts = cfg.ids(g.body[0])
                 leak = g.body[0] not in zero and cfg.path_exists(starts, [EXIT], avoid_ids=[i for z in zero for i in cfg.ids(z)])
                 ctx.check(not leak, "R04a", fi, zero[0], "junction zeroed on every path through the flush", "a path through the flush body reaches the end without zeroing the junction")
+    # the zero fill exists: the preallocate() that runs for every junction class zero-fills the stock after the base class allocated it (NaN)
+    for ci in _junction_classes(repo):
+        pre = repo.find_method(ci, "preallocate")
+        if pre is None:
+            continue
+        me = K.self_name(pre)
+        fills = [c for c in own_nodes(pre.node) if isinstance(c, ast.Call) and isinstance(c.func, ast.Attribute) and c.func.attr == "fill" and ast.unparse(c.func.value) == "%s.vals" % me and c.args and _is_zero(c.args[0])]
+        sup = [c for c in own_nodes(pre.node) if isinstance(c, ast.Call) and isinstance(c.func, ast.Attribute) and c.func.attr == "preallocate" and c is not None and ("super()" in ast.unparse(c.func.value) or ast.unparse(c.func.value) in ("Compartment", "Variable"))]
+        ok = bool(fills) and (not sup or all(f.lineno > sup[0].lineno for f in fills)) and not guards_of(fills[0]) if fills else False
+        ctx.check(ok, "R04a", pre, enclosing_stmt(fills[0]) if fills else pre.node, "%s: stock zero-filled at preallocation" % ci.name, "%s.preallocate does not (unconditionally, after the base allocation) fill the junction's stock with zeros: the base class allocates NaN, so every junction 'holds' NaN instead of nobody" % ci.name, stmt_text="junction-zero-fill:%s" % ci.name)
     ctx.require(len(_junction_classes(repo)) >= 2 and n >= 1, "R04a: junction family shrank (classes %d, stock stores %d)" % (len(_junction_classes(repo)), n))
 
 
